@@ -518,6 +518,13 @@ namespace bluetoe {
             out_size = 0;
             break;
 
+        // commands that are not supported are ignored; notifications and indications are not expected by a server
+        case details::att_opcodes::signed_write_command:
+        case details::att_opcodes::notification:
+        case details::att_opcodes::indication:
+            out_size = 0;
+            break;
+
         case details::att_opcodes::exchange_mtu_request:
             handle_exchange_mtu_request( input, in_size, output, out_size, connection );
             break;
